@@ -112,6 +112,9 @@ type hookState struct {
 	fg       atomic.Bool  // a foreground API call is in flight
 	mu       sync.Mutex
 	counters map[string]int // "<line>/<path>" -> events seen
+	imms      atomic.Value // func() int: sealed memtables not yet flushed
+	flMu      sync.Mutex
+	flDone    map[int]bool // WAL segment ids whose flush has completed (remove:wal seen)
 	parkArmed atomic.Bool
 	parked    atomic.Bool
 	release   chan struct{}
@@ -136,6 +139,33 @@ func (h *hookState) hook(op vfs.Op, path string) error {
 	}
 	if p == "X" && cls != "wal" && cls != "manifest" {
 		return nil // table / value-log handles being closed: no effect on what recovery sees
+	}
+	if p == "F" {
+		fid := 0
+		fmt.Sscanf(filepath.Base(path), "%d.", &fid)
+		if short == "remove" && cls == "wal" {
+			defer func() { h.flMu.Lock(); h.flDone[fid] = true; h.flMu.Unlock() }()
+		}
+		if f, _ := h.imms.Load().(func() int); f != nil && short == "open" && cls == "sst" && f() >= 2 {
+			// two sealed memtables are waiting: the flush of the older one is held back for a moment so
+			// that a flush of a newer one (a second flush worker) would overtake it; with the single
+			// worker of the tree nothing overtakes and the flushes are installed in segment order
+			deadline := time.Now().Add(300 * time.Millisecond)
+			for time.Now().Before(deadline) {
+				h.flMu.Lock()
+				over := false
+				for d := range h.flDone {
+					if d > fid {
+						over = true
+					}
+				}
+				h.flMu.Unlock()
+				if over {
+					break
+				}
+				time.Sleep(200 * time.Microsecond)
+			}
+		}
 	}
 	if p == "C" && short == "sync" && cls == "wal" && h.parkArmed.CompareAndSwap(true, false) {
 		// hold the commit worker right before the sync of this commit until `join` releases it;
@@ -237,7 +267,7 @@ func runChild(c *childCfg) {
 			hasMaint = true
 		}
 	}
-	hs := &hookState{cfg: c, counters: map[string]int{}}
+	hs := &hookState{cfg: c, counters: map[string]int{}, flDone: map[int]bool{}}
 	var fs vfs.FS = vfs.OSFS{}
 	if c.trace || c.killPath != "" {
 		fs = vfs.NewFaultFS(vfs.OSFS{}, hs.hook)
@@ -251,6 +281,8 @@ func runChild(c *childCfg) {
 		}()
 		hs.curLine.Store(int64(line))
 		db = NoKV.Open(dbOptions(openSpec, c.dir, fs))
+		l := db.VerifLSM()
+		hs.imms.Store(func() int { return l.VerifImmutables() })
 		if hasMaint {
 			// explicit compaction steps only: the background workers are stopped (no API call in flight)
 			db.VerifLSM().VerifStopCompactors()
